@@ -36,6 +36,12 @@ type Facts struct {
 var fset = token.NewFileSet()
 
 // functions whose closures' return statements are recorded (exit paths of the actor closures)
+// functions whose `go` statements are part of the extracted sequence
+var wantGo = map[string]bool{
+	"internal/backend.go:initializeSensors": true,
+	"internal/monitor.go:sensorMonitor.Run": true,
+}
+
 var wantReturns = map[string]bool{
 	"internal/controller/controller.go:DefaultFanController.Run": true,
 }
@@ -313,6 +319,10 @@ func main() {
 					if t := interesting(callName(s)); t != "" {
 						out = append(out, t)
 					}
+				case *ast.GoStmt:
+					if wantGo[key] {
+						out = append(out, "go{")
+					}
 				case *ast.ForStmt, *ast.RangeStmt:
 					out = append(out, "loop{")
 					// children are visited next; the closing marker is added by position below
@@ -425,6 +435,36 @@ func main() {
 			return "groupRun"
 		case "os.Exit":
 			return "exit"
+		}
+		return ""
+	})
+	// the sensor start-up: read once, seed the moving average, register - in this order, in the start-up's own goroutine
+	seq("internal/backend.go", "initializeSensors", func(n string) string {
+		switch n {
+		case "sensors.NewSensor":
+			return "newSensor"
+		case "sensor.GetValue":
+			return "getValue"
+		case "sensor.SetMovingAvg":
+			return "setAvg"
+		case "sensors.RegisterSensor":
+			return "register"
+		case "time.After", "time.NewTimer", "time.AfterFunc", "time.Sleep":
+			return "timer"
+		}
+		return ""
+	})
+	// the sensor monitor: one ticker at the configured rate, one updateSensor per tick, nothing else touches the ticker
+	seq("internal/monitor.go", "sensorMonitor.Run", func(n string) string {
+		switch {
+		case n == "time.NewTicker":
+			return "newTicker"
+		case n == "updateSensor":
+			return "updateSensor"
+		case strings.HasPrefix(n, "tick."):
+			return n
+		case n == "time.After" || n == "time.NewTimer" || n == "time.AfterFunc" || n == "time.Sleep" || n == "panic":
+			return "timer"
 		}
 		return ""
 	})
